@@ -45,3 +45,54 @@ pub fn arg_str(args: &[String], name: &str) -> Option<String> {
     }
     None
 }
+
+// ------------------------------------------------------------------------------------------
+// hang watchdog: every case loop calls `tick` with a description of the case it is about to
+// run; if no tick arrives for VERIF_HANG_MS (default 30 s, cases take milliseconds) the
+// watchdog prints {"hang": <description>} as the last line and exits with code 3, so that a
+// loop that never terminates in the crate is reported with the input that triggers it.
+// ------------------------------------------------------------------------------------------
+use std::sync::atomic::{AtomicU64, Ordering};
+use std::sync::Mutex;
+static WD_LAST: AtomicU64 = AtomicU64::new(0);
+static WD_DESC: Mutex<String> = Mutex::new(String::new());
+
+fn now_ms() -> u64 {
+    std::time::SystemTime::now().duration_since(std::time::UNIX_EPOCH).map(|d| d.as_millis() as u64).unwrap_or(0)
+}
+
+pub fn watchdog_start() {
+    let limit: u64 = std::env::var("VERIF_HANG_MS").ok().and_then(|s| s.parse().ok()).unwrap_or(30_000);
+    WD_LAST.store(now_ms(), Ordering::SeqCst);
+    std::thread::spawn(move || loop {
+        std::thread::sleep(std::time::Duration::from_millis(200));
+        let last = WD_LAST.load(Ordering::SeqCst);
+        if last != 0 && now_ms().saturating_sub(last) > limit {
+            let d = WD_DESC.lock().map(|g| g.clone()).unwrap_or_default();
+            let v: serde_json::Value = serde_json::from_str(&d).unwrap_or(serde_json::Value::String(d));
+            println!("\n{}", serde_json::json!({"hang": v, "limit_ms": limit}));
+            std::process::exit(3);
+        }
+    });
+}
+
+/// heartbeat: `desc` is only built when called, keep it cheap (it is stored, not printed)
+pub fn tick<F: FnOnce() -> String>(desc: F) {
+    if let Ok(mut g) = WD_DESC.lock() {
+        *g = desc();
+    }
+    WD_LAST.store(now_ms(), Ordering::SeqCst);
+}
+
+static WD_CMD: Mutex<String> = Mutex::new(String::new());
+pub fn set_cmd(c: String) {
+    if let Ok(mut g) = WD_CMD.lock() {
+        *g = c;
+    }
+}
+/// heartbeat naming the command line and the index of the case about to run (every random choice
+/// derives from --seed, so this replays), plus whatever concrete input the caller has at hand
+pub fn tick_idx(i: u64, extra: serde_json::Value) {
+    let cmd = WD_CMD.lock().map(|g| g.clone()).unwrap_or_default();
+    tick(|| serde_json::json!({"cmd": cmd, "case_index": i, "input": extra}).to_string());
+}
